@@ -109,6 +109,78 @@ def c18(tier):
                       ASSUME_COMMON)
 
 
+@reg("C09")
+def c09(tier):
+    from . import groups as G
+    run = P.Run("C09", tier, ["C09_"])
+    s = run.seed
+    defs = F.curated() + F.random_family(1600 + s, sizes(tier, 60, 600), nmax=4, publish=True)
+    run.add_mc(F.curated() + F.random_family(3100 + s, sizes(tier, 30, 300), nmax=4), ["C09"], max_pause=1,
+               replay=(tier != "quick"))
+    run.add_jobs(jobs_for(defs, {"pause": 1, "max_nodes": sizes(tier, 1500, 6000)}, s, ("yaql", "jinja")))
+    gs, infeasible = G.pause_groups(run.results, sizes(tier, 40, 400), random.Random(s))
+    run.extra["twin_infeasible"] = infeasible
+    run.add_groups(gs)
+    return run.finish("model_checking",
+                      "every placement of one pause (and its resume once at rest) in every explored history: step "
+                      "clauses C09_hold/paused_when_drained/resume_work on each call; each terminal paused run "
+                      "compared with its de-paused twin (same reports, no pause) by C09_same_*",
+                      ASSUME_COMMON + ["twin = the paused run's own report sequence replayed without pause/resume"])
+
+
+@reg("C10")
+def c10(tier):
+    run = P.Run("C10", tier, ["C10_"])
+    s = run.seed
+    defs = F.curated() + F.random_family(1700 + s, sizes(tier, 60, 600), nmax=4, publish=True)
+    run.add_mc(F.curated() + F.random_family(3200 + s, sizes(tier, 30, 300), nmax=4), ["C10"], max_pause=1, max_cancel=1,
+               replay=(tier != "quick"))
+    run.add_jobs(jobs_for(defs, {"pause": 1, "cancel": 1, "resume_early": tier != "quick",
+                                 "max_nodes": sizes(tier, 1500, 6000)}, s))
+    return run.finish("model_checking",
+                      "cancel requested at every position (from running, pausing, paused, resuming) of every explored history",
+                      ASSUME_COMMON)
+
+
+@reg("C08")
+def c08(tier):
+    from . import groups as G
+    from . import defs as D
+    run = P.Run("C08", tier, ["C08_"])
+    s = run.seed
+    rng = random.Random(s)
+    base = [d for d in F.curated() + F.random_family(1800 + s, sizes(tier, 60, 500), nmax=sizes(tier, 4, 5), publish=True)
+            if D.is_acyclic(d)]
+    scen = []
+    for d in base:
+        scen.extend(G.fate_assignments(d, cap=sizes(tier, 6, 16), rng=rng))
+    run.add_jobs(jobs_for(scen, {"max_nodes": sizes(tier, 2500, 10000)}, s, ("yaql", "jinja")))
+    run.add_groups(G.order_groups(run.results))
+    return run.finish("model_checking",
+                      "acyclic definitions x outcome fixed per task: all linearisations of the completion partial "
+                      "order explored by DFS on the real conductor; terminal leaves of one scenario form a group "
+                      "related by C08_status/executed/published/output",
+                      ASSUME_COMMON + ["'written by two concurrent branches' is decided statically (publish sites on "
+                                       "graph-unordered tasks), an over-approximation of concurrency"])
+
+
+@reg("C05")
+def c05(tier):
+    from . import groups as G
+    run = P.Run("C05", tier, ["C05_"])
+    s = run.seed
+    defs = F.curated() + F.random_family(1900 + s, sizes(tier, 50, 500), nmax=4, publish=True)
+    run.add_jobs(jobs_for(defs, {"pause": 1, "cancel": 1, "sample": sizes(tier, 2, 3), "max_nodes": sizes(tier, 400, 1500)},
+                          s, ("yaql", "jinja")))
+    gs, errors = G.persist_groups(run.results, sizes(tier, 4, 10), random.Random(s))
+    run.extra["persist_job_errors"] = errors
+    run.add_groups(gs)
+    return run.finish("model_checking",
+                      "for sampled complete histories: live run vs run restored (deserialize(serialize())) after "
+                      "every call / after random subsets of calls / after one call; compared step by step",
+                      ASSUME_COMMON + ["persist points are sampled (all, single, random subsets), not all 2^n subsets"])
+
+
 def replay(prop, path):
     """Re-run one recorded violation on the current tree and print the failing clauses."""
     from . import explore as X
